@@ -320,6 +320,13 @@ let run_op (g1 : bool) (dbg : bool) (op : str) (a : tok list) : str =
   | "skenum_from_be" ->
     (match sk_enum_from_be_bytes k o (bytes_of (arg 0)) with
      | Some (cv, s) -> "some:" ^ hex_of_bytes (sk_enum_to_bytes k o cv s) | None -> "none")
+  | "keygen_hash" ->
+    in_m (fun x -> let s = fmt_scalar x in String.concat ":" [s; s; s; s; s]) (sk_from_hash k o (bytes_of (arg 0)))
+  | "keygen_seeded" ->
+    in_m (fun (x, _) -> let s = fmt_scalar x in String.concat ":" [s; s; s; s; s]) (sk_new k o (ent_of [arg 0]) O)
+  | "keygen_tap" ->
+    let one t = in_m (fun (x, w) -> Printf.sprintf "%s:draws=%d" (fmt_scalar x) (int_of_nat w)) (sk_new k o (ent_of [t]) O) in
+    String.concat ":" [one (arg 0); one (arg 1); one (arg 2)]
   | "sk_new" -> in_m (fun (x, w) -> Printf.sprintf "%s:draws=%d" (fmt_scalar x) (int_of_nat w)) (sk_new k o (ent_of [arg 0]) O)
   | "challenge_new" -> in_m (fun (x, w) -> Printf.sprintf "%s:draws=%d" (fmt_scalar x) (int_of_nat w)) (sk_new k o (ent_of [arg 0]) O)
   | "sk_split_tap" ->
